@@ -72,7 +72,8 @@ func (msg MsgCreateClient) ValidateBasic() error {
 		return errorsmod.Wrapf(ibcerrors.ErrInvalidAddress, "string could not be parsed as address: %v", err)
 	}
 	// validate the total size of client state
-	if len(msg.ClientState.Value) > MaxClientStateSize {
+	// NOTE: a nil Any is rejected by UnpackClientState below
+	if msg.ClientState != nil && len(msg.ClientState.Value) > MaxClientStateSize {
 		return errorsmod.Wrapf(ibcerrors.ErrTooLarge, "client state size %d exceeds max size %d", len(msg.ClientState.Value), MaxClientStateSize)
 	}
 	clientState, err := UnpackClientState(msg.ClientState)
@@ -83,7 +84,8 @@ func (msg MsgCreateClient) ValidateBasic() error {
 		return err
 	}
 	// validate the total size of consensus state
-	if len(msg.ConsensusState.Value) > MaxConsensusStateSize {
+	// NOTE: a nil Any is rejected by UnpackConsensusState below
+	if msg.ConsensusState != nil && len(msg.ConsensusState.Value) > MaxConsensusStateSize {
 		return errorsmod.Wrapf(ibcerrors.ErrTooLarge, "consensus state size %d exceeds max size %d", len(msg.ConsensusState.Value), MaxConsensusStateSize)
 	}
 	consensusState, err := UnpackConsensusState(msg.ConsensusState)
